@@ -16,6 +16,7 @@ use super::common::{safe_ident, CodegenGrammar, CodegenRule, CodegenSettings};
 
 impl CodegenGrammar for Grammar {
     fn generate_code(&self, settings: &CodegenSettings) -> Result<TokenStream> {
+        crate::validate::validate_grammar(self, settings)?;
         let mut all_types = TokenStream::new();
         let mut all_parsers = TokenStream::new();
         let mut all_impls = TokenStream::new();
